@@ -190,6 +190,13 @@ def wb_configs(tier, seed):
             {"t": "csr", "node": {"t": "evmon", "n": 20, "align": 0}, "name": None, "bname": "ev"},
             {"t": "sram", "size": 8, "name": None, "addr": 0x20}]},
     ]
+    # a CSR space of exactly ONE Wishbone word (bridge with a zero-width Wishbone address), next to other windows
+    cfgs.append({"aw": 4, "dw": 32, "g": 8, "align": 0, "children": [
+        {"t": "csr", "node": {"t": "bridge", "aw": 2, "regs": [[32, "rw", None]]}, "name": "one_word"},
+        {"t": "sram", "size": 8, "name": "ram"}]})
+    cfgs.append({"aw": 3, "dw": 16, "g": 8, "align": 0, "children": [
+        {"t": "sram", "size": 4, "name": "ram"},
+        {"t": "csr", "node": {"t": "bridge", "aw": 1, "regs": [[8, "rw", None], [8, "r", None]]}, "name": None}]})
     n = 6 if tier == "quick" else 150
     for _ in range(n):
         dw, g = rng.choice([(8, 8), (16, 8), (32, 8), (32, 16), (16, 16), (32, 32)])
